@@ -461,6 +461,12 @@ def expr_simplifications(e, keep_root=False):
         if keep_root and not path:
             continue
         yield _replace(e, path, ZERO)
+        if sub[0] == "int" and sub[1] not in (0, 1):
+            yield _replace(e, path, ("int", 1))
+        if sub[0] == "float" and sub[1] != 1.0:
+            yield _replace(e, path, ("float", 1.0))
+        if sub[0] == "Product":
+            yield _replace(e, path, ("Sum", *sub[1:]))
         for c in spec_children(sub):
             if c[0] not in _NONEXPR:
                 yield _replace(e, path, c)
@@ -491,6 +497,17 @@ def stmt_simplifications(s):
             t = ("A", id, ("Subscript", Var(name), lhs[2]), ZERO, None, deps)
             if len(stmt_idents(t)) < len(stmt_idents(s)):
                 yield t
+    # a non-trivial index / condition expression moved to the rhs of a plain assignment
+    w = Var(written_name(s))
+    movable = []
+    if lhs[0] == "Subscript":
+        movable.append(lhs[2])
+    if cond is not None:
+        movable.append(cond)
+        movable.extend(c for c in spec_children(cond) if c[0] not in _NONEXPR)
+    for e in movable:
+        if e[0] not in ("int", "float", "bool", "Variable"):
+            yield ("A", id, w, e, None, deps)
     if cls == "CA":
         yield ("A", id, lhs, rhs, None, deps)
         for c in expr_simplifications(cond):
@@ -529,6 +546,78 @@ def case_simplifications(case):
         yield (op, a, b2, filt)
     if op != "fuse" and filt != "all":
         yield (op, a, b, "all")
+    # uniform rewrites of the whole case (twins must change together)
+    for fn in (_product_to_sum, _small_constants):
+        cand = (op, _map_exprs(a, fn), _map_exprs(b, fn), filt)
+        if cand != case:
+            yield cand
+    # a statement carrying two non-trivial expressions split into two plain assignments
+    for side, stream in ((1, a), (2, b)):
+        for i, t in enumerate(stream):
+            parts = _split_stmt(t, {x[1] for x in a} | {x[1] for x in b})
+            if parts:
+                new = (*stream[:i], *parts, *stream[i + 1:])
+                yield (op, new, b, filt) if side == 1 else (op, a, new, filt)
+    # identify two identifiers (strictly fewer distinct names, so this terminates)
+    names = sorted(stream_idents(a) | stream_idents(b))
+    for i, n in enumerate(names):
+        for m in names[i + 1:]:
+            yield (op, _merge_name(a, m, n), _merge_name(b, m, n), filt)
+
+
+def _map_exprs(stream, fn):
+    def rec(e):
+        if e is None:
+            return None
+        ch = spec_children(e)
+        if ch:
+            e = rebuild(e, [rec(c) for c in ch])
+        return fn(e)
+    return tuple((t[0], t[1], rec(t[2]), rec(t[3]), rec(t[4]), t[5]) for t in stream)
+
+
+def _product_to_sum(e):
+    return ("Sum", *e[1:]) if e[0] == "Product" else e
+
+
+def _small_constants(e):
+    if e[0] == "int" and e[1] not in (0, 1):
+        return ("int", 1)
+    if e[0] == "float" and e[1] != 1.0:
+        return ("float", 1.0)
+    return e
+
+
+def _split_stmt(t, used_ids):
+    cls, id, lhs, rhs, cond, deps = t
+    if cls == "N":
+        return None
+    trivial = ("int", "float", "bool", "Variable")
+    exprs = [e for e in ((lhs[2] if lhs[0] == "Subscript" else None), rhs, cond)
+             if e is not None and e[0] not in trivial]
+    if len(exprs) < 2:
+        return None
+    w = Var(written_name(t))
+    out = []
+    for k, e in enumerate(exprs):
+        nid = id if k == 0 else f"{id}_{k}"
+        if k and nid in used_ids:
+            return None
+        out.append(("A", nid, w, e, None, deps if k == 0 else ()))
+    return tuple(out)
+
+
+def _merge_name(stream, old, new):
+    def rv(e):
+        if e is None:
+            return None
+        if e[0] == "Variable":
+            return Var(new) if e[1][1] == old else e
+        ch = spec_children(e)
+        if not ch:
+            return e
+        return rebuild(e, [rv(c) for c in ch])
+    return tuple((t[0], t[1], rv(t[2]), rv(t[3]), rv(t[4]), t[5]) for t in stream)
 
 
 def rename_case(case, names=True, ids=True):
